@@ -48,7 +48,8 @@ def run_one(mod, plan, inst, keep_log=False):
 
 def plan_for(mod, prop, verif_seed, index, tier):
     run_seed = H(verif_seed, prop, index)
-    plan = mod.generate(run_seed, tier)
+    gi = getattr(mod, "generate_indexed", None)
+    plan = gi(index, run_seed, tier) if gi else mod.generate(run_seed, tier)
     plan["format"] = kernel.FORMAT
     plan["property"] = prop
     plan["origin"] = {"verif_seed": verif_seed, "run_index": index, "run_seed": "%016x" % run_seed, "tier": tier}
